@@ -189,13 +189,19 @@ def judge_explicit(fam, res, modes=('fwd', 'rev'), post=None):
                 pre = fam.known(clause, of=o) or fam.name
                 res.fail(f"{pre}:{clause}", f"output '{o}' ({mode}): {msg}")
         # totals
-        allscale = [float(np.max(s)) for (_, s) in fam.partials.values() if np.size(s)]
+        allscale = [float(np.max(ent[1])) for ent in fam.partials.values() if np.size(ent[1])]
         zero_scale = max(allscale) if allscale else 1.0
         for o, (exp, _) in fam.outputs.items():
             for n, d in fam.inputs.items():
                 Jg = np.asarray(J['c.' + o, wrt[n]], dtype=float)
+                tol = RTOL
                 if (o, n) in fam.partials:
-                    Je, Js = fam.partials[o, n]
+                    ent = fam.partials[o, n]
+                    Je, Js = ent[0], ent[1]
+                    if len(ent) > 2:
+                        tol = ent[2]
+                        if tol is None:          # reference not available for this block (gate failed): not judged
+                            continue
                     Je = np.asarray(Je, dtype=float) * d.f
                     Js = np.broadcast_to(np.asarray(Js, dtype=float), Je.shape) * abs(d.f)
                     # entries that are structurally zero get the scale of the largest entry of the block
@@ -203,7 +209,7 @@ def judge_explicit(fam, res, modes=('fwd', 'rev'), post=None):
                 else:
                     Je = np.zeros((exp.size, d.size))
                     Js = np.full(Je.shape, zero_scale)
-                msg = worst(Jg, Je, Js)
+                msg = worst(Jg, Je, Js, tol=tol)
                 if msg:
                     pre = fam.known('totals', of=o, wrt=n) or fam.name
                     res.fail(f"{pre}:totals-{mode}", f"d {o} / d {n} ({mode}): {msg}")
